@@ -409,7 +409,12 @@ class Schema(dict, metaclass=LogicalMeta):
             raise exc.DeleteError(
                 f"{self.__name__}: Attempt to popitem in immutable schema"
             )
-        return super().popitem()
+        if not self:
+            raise KeyError("popitem(): dictionary is empty")
+        key = next(reversed(self))
+        value = super().__getitem__(key)
+        self.__delitem__(key)   # apply the required / immutable checks of item deletion
+        return key, value
 
     def pop(self, key: str, default=unprovided):
         if self.__options__.immutable:
@@ -459,6 +464,16 @@ class Schema(dict, metaclass=LogicalMeta):
         # self.__parser__.coerce_properties(values, self, options=options)
         #
         # return super().update(values)
+
+    def setdefault(self, key: str, default=None):
+        if key in self:
+            return self[key]
+        self.__setitem__(key, default)  # parse the value like any other assignment
+        return self[key] if key in self else default
+
+    def __ior__(self, other):
+        self.update(other)
+        return self
 
     # def __copy__(self):
     #     return self.copy()
